@@ -160,9 +160,14 @@ type Traffic struct {
 	Hostile   bool // hostile field contents (C05 pipeline tier)
 }
 
-func NewTraffic(g *mon.RNG, proto string, nexp int, udpSize int, snap []wire.Elem, v4only bool, hostile bool) *Traffic {
+// NewTraffic builds exporters (random, or the given fixed list) and their templates.
+func NewTraffic(g *mon.RNG, proto string, nexp int, udpSize int, snap []wire.Elem, v4only bool, hostile bool, fixed ...[]byte) *Traffic {
 	t := &Traffic{Proto: proto, Tpls: map[string][]*wire.Template{}, TplDgrams: map[string][]byte{}, Snap: snap, G: g, UDPSize: udpSize, Hostile: hostile}
 	seen := map[string]bool{}
+	if len(fixed) > 0 {
+		t.Exporters = fixed
+		nexp = len(fixed)
+	}
 	for len(t.Exporters) < nexp {
 		var a []byte
 		if v4only {
